@@ -604,13 +604,73 @@ func c08GenStreams(c *Ctx, n int) []c08Stream {
 	return out
 }
 
-// c08GoLex renders the real scanner's result in the format of the driver's C08.lex reply.
+// c08NoProgress walks the source with nextToken alone: the scanner loop (mmLexInfo.Lex) advances by
+// the length of the text nextToken returns and only stops at the end of the input or on INVALID, so
+// an empty token that is not INVALID at a position it reaches means it never returns.
+func c08NoProgress(src string) string {
+	b := []byte(src)
+	for p := 0; p < len(b); {
+		id, v := syntax.VerifNextToken(b[p:])
+		if id == syntax.VerifTokINVALID {
+			return ""
+		}
+		if len(v) == 0 {
+			return fmt.Sprintf("nextToken returns the empty token %d (%s) at offset %d (%q): the loop of Lex cannot advance", id, c08TokName(id), p, c08Head(b[p:]))
+		}
+		if len(v) > len(b)-p {
+			return ""
+		}
+		p += len(v)
+	}
+	return ""
+}
+
+func c08Head(b []byte) string {
+	if len(b) > 8 {
+		b = b[:8]
+	}
+	return string(b)
+}
+
+// c08GoLex renders the real scanner's result in the format of the driver's C08.lex reply.  panicked
+// is the panic value, or starts with "HANG" when the scanner loop would not / did not return (found
+// by c08NoProgress without entering the loop, or by the deadline).
 func c08GoLex(src string) (rendered string, toks []syntax.VerifTok, pos int, panicked string) {
+	type res struct {
+		rendered string
+		toks     []syntax.VerifTok
+		pos      int
+		panicked string
+	}
+	if c08ScannerHung {
+		return "", nil, 0, "HANG (not called again: the tokenizer did not return on an earlier input)"
+	}
+	ch := make(chan res, 1)
+	go func() {
+		var o res
+		defer func() { ch <- o }()
+		o.rendered, o.toks, o.pos, o.panicked = c08GoLexRaw(src)
+	}()
+	t := time.NewTimer(c08ScanDeadline)
+	defer t.Stop()
+	select {
+	case o := <-ch:
+		return o.rendered, o.toks, o.pos, o.panicked
+	case <-t.C:
+		c08ScannerHung = true
+		return "", nil, 0, "HANG: the scanner loop did not return within " + c08ScanDeadline.String()
+	}
+}
+
+func c08GoLexRaw(src string) (rendered string, toks []syntax.VerifTok, pos int, panicked string) {
 	defer func() {
 		if p := recover(); p != nil {
 			panicked = fmt.Sprint(p)
 		}
 	}()
+	if why := c08NoProgress(src); why != "" {
+		return "", nil, 0, "HANG: " + why
+	}
 	toks, cms, pos := syntax.VerifLexAll([]byte(src), 1<<20)
 	ts := make([]string, len(toks))
 	for i, t := range toks {
@@ -793,6 +853,21 @@ func c08TokenStream(c *Ctx) {
 		r.count("stream:"+s.src, len(toks) > 1)
 		r.hist("stream:" + s.kind)
 		nbytes += len(s.src)
+		if strings.HasPrefix(panicked, "HANG") {
+			if !reported["hang"] {
+				reported["hang"] = true
+				small := c08ShrinkBytes(s.src, func(x string) bool { _, _, _, p := c08GoLex(x); return strings.HasPrefix(p, "HANG") }, 300)
+				_, _, _, why := c08GoLex(small)
+				if !strings.HasPrefix(why, "HANG") {
+					small, why = s.src, panicked
+				}
+				r.violate(Violation{Kind: "property", Key: "C08:hang:lexer",
+					What:  "the scanner loop (mmLexInfo.Lex) does not terminate: " + why,
+					Input: strconv.Quote(small), Impl: why, Expect: "every iteration consumes at least one byte or returns INVALID",
+					Broken: "Props.C08.lexer_progress_full / lex_terminates"})
+			}
+			continue
+		}
 		if panicked != "" {
 			r.violate(Violation{Kind: "property", Key: "C08:lexer-panic",
 				What:  "the scanner loop (mmLexInfo.Lex) panicked: " + panicked,
